@@ -397,8 +397,8 @@ DOCS = {
 class DocFJob:
     """cif_parse of a document into a new CIF, or cif_write of the CIF parsed from it, with the k-th allocation failing"""
 
-    def __init__(self, name, text, mode):
-        self.name, self.text, self.mode = name, text, mode
+    def __init__(self, name, text, mode, kinds=7):
+        self.name, self.text, self.mode, self.kinds = name, text, mode, kinds      # kinds: 1 the library's own requests, 6 SQLite's and ICU's
         self.n, self.ks = 0, []
         self.base = None
 
@@ -409,13 +409,16 @@ class DocFJob:
         return self._rc0
 
     def describe(self):
-        return "%s of document %r" % (self.opname(), self.name)
+        return "%s of document %r (%s)" % (self.opname(), self.name, {1: "library allocations", 6: "SQLite / ICU allocations"}.get(self.kinds, "all allocations"))
 
     def _parse(self, **kw):
-        return dict({"op": "parse", "text": self.text, "cif": "c1", "errors": "accept"}, **kw)
+        # mode parse-h: with a handler that continues everywhere and, like an application, queries the handles it is
+        # given (container code, loop category and names, packet items, values) - public calls made while cif_parse runs
+        return dict({"op": "parse", "text": self.text, "cif": "c1", "errors": "accept"}, **(dict(kw, handler=1) if self.mode == "parse-h" else kw))
 
-    def iteration(self, k, kinds=7):
-        if self.mode == "parse":
+    def iteration(self, k, kinds=None):
+        kinds = self.kinds
+        if self.mode in ("parse", "parse-h"):
             c = [{"op": "reset"}, self._parse(fail_at=k, fail_kinds=kinds), {"op": "project", "cif": "c1"}, {"op": "walk", "cif": "c1"}, {"op": "cif_destroy", "cif": "c1"}]
             it, ir = 1, None
             if k > 0:
@@ -432,7 +435,7 @@ class DocFJob:
     def learn(self, outs, it):
         o = outs[it]
         self._rc0 = o.get("rc")
-        if self.mode == "parse":
+        if self.mode in ("parse", "parse-h"):
             self.base = {"rc": o.get("rc"), "errs": [e.get("code") for e in o.get("log", []) if e.get("cb") == "error"], "state": outs[it + 1].get("state")}
         else:
             self.base = {"rc": o.get("rc"), "hex": o.get("hex"), "state": outs[it - 1].get("state")}
@@ -444,7 +447,7 @@ class DocFJob:
         site = "%s:%s" % (o.get("akind"), re.sub(r":\d+$", "", o.get("site", "") or "?"))
         sym = []
         rc = o.get("rc")
-        if self.mode == "parse":
+        if self.mode in ("parse", "parse-h"):
             st = outs[it + 1].get("state")
             if rc == self.base["rc"] and st == self.base["state"]:
                 return True, site, ["~tolerated"]
@@ -470,7 +473,10 @@ class DocFJob:
 
 
 def doc_jobs(tier):
-    return [DocFJob(n, t, m) for n, t in DOCS.items() for m in ("parse", "write") if not (m == "write" and n == "cif1-defect")]
+    # the library's own requests are few enough to be failed one by one; SQLite's and ICU's (thousands per document) are
+    # sampled up to the tier's bound
+    return [DocFJob(n, t, m, kinds) for n, t in DOCS.items() for m in ("parse", "write", "parse-h") for kinds in (1, 6)
+            if not (m == "write" and n == "cif1-defect") and not (m == "parse-h" and n not in ("loop", "composite"))]
 
 
 def c17(tier, replay=None):
